@@ -389,8 +389,8 @@ def flow_rules(c, res, an):
         res.require(must_guarded_by_call(bf, bb, 'channel_mask_validate'), 'C04:%s:channel_mask_set-without-validate' % short(fn),
                     'a channel mask is installed without channel_mask_validate: a mask with no usable channel makes select_tx_channel spin forever',
                     short_site(bf, bb), 'VALIDATE-BEFORE-WRITE(channel mask)', instance='%s: channel_mask_set after channel_mask_validate' % short(fn))
-    if n_set < 2:
-        raise CheckError('floor: channel_mask_set call sites %d < 2' % n_set)
+    if n_set < 1:
+        raise CheckError('floor: channel_mask_set call sites %d < 1' % n_set)
     # direct stores to the mask fields only in channel_mask_set / constructors
     for adt in ('DynamicChannelPlan', 'FixedChannelPlan'):
         for body, bb, si, st in stores_through(prog, adt, 'channel_mask'):
